@@ -63,6 +63,8 @@ import Proofs.FormatExpRangeText
 import Proofs.FormatStageRangeText
 import Proofs.FormatStageRange32
 
+import Proofs.FormatPipeRangeText
+
 namespace Props.C09
 open Martian.Format
 
@@ -1816,5 +1818,272 @@ theorem accepted_stage_float32_resource :
   set_option maxRecDepth 100000 in decide +kernel
 
 end AcceptedDeclTexts
+
+/-! ## call statements and pipelines: ACCEPTED SOURCE TEXTS
+
+The theorems of sections CallStatements, PipelineStatements and PipelineDeclarations quantify over
+ASTs satisfying `wfCall` / `wfCall2` / `wfBody` / `wfPipeline` (print → read → print).  This section
+closes the gap to "every source text the parser accepts", as section AcceptedTexts does for value
+expressions: the RANGE of the readers `pCall2`, `pReturn`, `pPRetain`, `pBody`, `pInParams`,
+`pOutParams`, `pPipeline` on tokens in the range of the tokenizer (`range_lex`) is `wfCall2Raw` …
+`wfPipelineRaw` (NO exception hypothesis), and from there everything `UncheckedParse` can return
+for a file that is one call / one pipeline is well formed, up to exactly these exceptions, each an
+explicit Bool hypothesis with a negative witness on an accepted text below:
+
+* F6b `call2StrsValid` / `pipeStrsValid`: a string (binding value, help text, out name) that is not
+  valid UTF-8;  F26 `call2NoNegZero` / `pipeNoNegZero`: a float leaf `-0`;
+* F40 `modsDistinct` / `pipeModsDistinct`: the same modifier id twice in one `using` block
+  (`using (local = true, local = false,)` is grammatical; the compiler rejects it later with
+  `DuplicateBinding`).  The model's `sortMods` is a STABLE sort, Go's `sort.Slice` is not: on 13 or
+  more entries with repeated ids the real formatter permutes entries with equal ids (found with the
+  real code; the output is still a fixed point there, pdqsort leaves sorted input alone), so the
+  model describes the real printer only for distinct ids;
+* F34 `pipeCallsDistinct`: two calls with the same id in one pipeline (`pipeline-not-idempotent`).
+
+What the parser does NOT guarantee but `wfCall2` does not demand either (so no hypothesis; witnesses
+below): a keyword modifier together with a binding of the same id (`call local X() using (local =
+false,)`, F41: the compiler rejects the source with `ConflictingModifiers`, the formatter prints the
+binding alone, which compiles), and two `using` blocks (the PARSER keeps the last one only, so the
+AST the formatter sees never held the first).
+
+Model: `Martian.FormatCallText`.  `parseCall2G g` / `parsePipelineG g` = `UncheckedParse` with every
+float leaf as Go holds it (`canonCall2 g` / `canonPipeline g` of the raw result; `g` abstract with
+`GOK g`, see section AcceptedTexts).  Tied on every run by harness/c09call2.go and
+harness/c09pipe.go: every hypothesis and `wfCall2` / `wfPipeline` are evaluated (driver ops
+`call2hyps`, `pipehyps`) on what the REAL parser returned for every accepted text; an accepted text
+that satisfies all hypotheses but not `wf…` is the violation `C09:accepted-call-not-wf`. -/
+section AcceptedCallTexts
+open Martian.FormatExp Martian.FormatCall Martian.FormatCall2 Martian.FormatPipe Martian.FormatCallText
+
+/-- **Range of the call reader** (no exception hypothesis).  On tokens in the range of the
+tokenizer, whatever `pCall2` returns satisfies `wfCall2Raw`: callee name and call id are `id`
+tokens, hence identifiers (`local`/`preflight`/`volatile` before `(` or `as` is the name); every
+binding id is an identifier and every binding value is in the range of the expression reader
+(`wfRaw`); a split binding holds a non-empty array, a non-empty map or a reference (and is only
+read inside a `map call`: `isMap2` is DEFINED as "some binding is split", and `pCall2` rejects a
+`map call` without one); the wildcard value (always last: it ends the list) is `self` or a
+reference; the `using` block holds `local|preflight|volatile = true|false` and `disabled = REF`. -/
+theorem range_call2_reader (ts : List Tok) (c : Call2) (rest : List Tok)
+    (h : pCall2 ts = some (c, rest)) (hts : ∀ tok ∈ ts, tokOK tok = true) :
+    wfCall2Raw c = true ∧ ∀ tok ∈ rest, tokOK tok = true :=
+  ⟨(pCall2_range' ts c rest (List.all_eq_true.mpr hts) h).1,
+    List.all_eq_true.mp (pCall2_range' ts c rest (List.all_eq_true.mpr hts) h).2⟩
+
+/-- **Range of `return (…)`, `retain (…)` and of the statements of a pipeline**: `return` has no
+split binding, `retain` holds references. -/
+theorem range_body_readers (ts : List Tok) (hts : ∀ tok ∈ ts, tokOK tok = true) :
+    (∀ r rest, pReturn ts = some (r, rest) → wfRetRaw r = true) ∧
+    (∀ rs rest, pPRetain ts = some (some rs, rest) → wfPRetainRaw rs = true) ∧
+    (∀ b rest, pBody ts = some (b, rest) → wfBodyRaw b = true) :=
+  ⟨fun r rest h => (pReturn_range ts r rest (List.all_eq_true.mpr hts) h).1,
+   fun rs rest h => (pPRetain_range ts (some rs) rest (List.all_eq_true.mpr hts) h).1 rs rfl,
+   fun b rest h => (pBody_range ts b rest (List.all_eq_true.mpr hts) h).1⟩
+
+/-- **Range of the parameter-list readers** as `pipeline` uses them: every parameter satisfies
+`pipeParamRaw` (= `wfParam` without the validity of help text and out name: the type is a builtin
+keyword or a dotted list of identifiers with dimensions in `int16`, the id is an identifier — or
+`default` for an unnamed output —, an input has no out name), inputs are inputs, outputs outputs. -/
+theorem range_param_readers (f : Nat) (ts : List Tok) (ps : List Martian.FormatDecl.Param) (rest : List Tok)
+    (hts : ∀ tok ∈ ts, tokOK tok = true) :
+    (Martian.FormatDecl.pInParams f ts = some (ps, rest) →
+      ps.all pipeParamRaw = true ∧ ps.all (fun q => !q.out) = true) ∧
+    (Martian.FormatDecl.pOutParams f ts = some (ps, rest) →
+      ps.all pipeParamRaw = true ∧ ps.all (fun q => q.out) = true) :=
+  ⟨fun h => ⟨(pInParams_range f ts ps rest (List.all_eq_true.mpr hts) h).1,
+      (pInParams_range f ts ps rest (List.all_eq_true.mpr hts) h).2.1⟩,
+   fun h => ⟨(pOutParams_range f ts ps rest (List.all_eq_true.mpr hts) h).1,
+      (pOutParams_range f ts ps rest (List.all_eq_true.mpr hts) h).2.1⟩⟩
+
+/-- with valid help texts and out names, `pipeParamRaw` is `wfParam` -/
+theorem params_wf_of_raw (ps : List Martian.FormatDecl.Param) (hr : ps.all pipeParamRaw = true)
+    (hs : paramsStrsValid ps = true) : ps.all Martian.FormatDecl.wfParam = true :=
+  all_wfParam_of_raw ps hr hs
+
+/-- **Range of the pipeline reader** (no exception hypothesis) -/
+theorem range_pipeline_reader (ts : List Tok) (p : Pipeline) (rest : List Tok)
+    (h : pPipeline ts = some (p, rest)) (hts : ∀ tok ∈ ts, tokOK tok = true) : wfPipelineRaw p = true :=
+  pPipeline_range ts p rest hts h
+
+/-- **Every accepted source text** (any spelling): what the raw readers return is in the range -/
+theorem parse_produces_raw_call_pipeline (src : List UInt8) :
+    (∀ c, parseCall src = some c → wfCallRaw c = true) ∧
+    (∀ c, parseCall2 src = some c → wfCall2Raw c = true) ∧
+    (∀ b, parseBody src = some b → wfBodyRaw b = true) ∧
+    (∀ p, parsePipeline src = some p → wfPipelineRaw p = true) :=
+  ⟨parseCall_range src, parseCall2_range src, parseBody_range src, parsePipeline_range src⟩
+
+/-- **The parser produces well-formed call statements** — partial: hypotheses `hs` (F6b), `hz` (F26),
+`hd` (F40: a modifier id bound twice in the `using` block); without any of them the statement is
+false (`accepted_call_invalid_utf8_negative_zero`, `accepted_call_duplicate_modifier`). -/
+theorem parse_produces_wf_call2_partial (g : List UInt8 → List UInt8) (hg : GOK g) (src : List UInt8)
+    (c : Call2) (h : parseCall2G g src = some c) (hs : call2StrsValid c = true)
+    (hz : call2NoNegZero c = true) (hd : modsDistinct c = true) : wfCall2 c = true :=
+  parseCall2G_wf g hg src c h hs hz hd
+
+/-- **Formatting preserves every accepted call statement** — partial in the same sense (F6b, F26,
+F40).  For every source text of a call statement the parser accepts — keyword modifiers
+(`call local volatile X(…)`), a `using` block in any order, both, `as`, `map call` with split
+bindings, a wildcard binding, comments, any white space, any spelling of the values — the
+formatter's output is accepted; it denotes the same call up to `normCall2` (keyword modifiers
+become `= true` bindings, the `using` block is sorted by id, integral floats become ints); it is a
+fixed point of the formatter; and formatting what was re-read is accepted again, same result. -/
+theorem format_preserves_accepted_call2_partial (g : List UInt8 → List UInt8) (hg : GOK g)
+    (src : List UInt8) (c : Call2) (h : parseCall2G g src = some c) (hs : call2StrsValid c = true)
+    (hz : call2NoNegZero c = true) (hd : modsDistinct c = true) :
+    parseCall2G g (fmtCall2 [] c) = some (normCall2 c) ∧ fmtCall2 [] (normCall2 c) = fmtCall2 [] c ∧
+      parseCall2G g (fmtCall2 [] (normCall2 c)) = some (normCall2 c) :=
+  format_accepted_call2 g hg src c h hs hz hd
+
+/-- the same for the modifier-less slice `parseCall` / `fmtCall` of section CallStatements (F6b, F26) -/
+theorem format_preserves_accepted_call_partial (g : List UInt8 → List UInt8) (hg : GOK g)
+    (src : List UInt8) (c : Call) (h : parseCallG g src = some c) (hs : callStrsValid c = true)
+    (hz : callNoNegZero c = true) :
+    wfCall c = true ∧ parseCallG g (fmtCall c) = some (normCall c) ∧ fmtCall (normCall c) = fmtCall c ∧
+      parseCallG g (fmtCall (normCall c)) = some (normCall c) :=
+  ⟨parseCallG_wf g hg src c h hs hz, format_accepted_call g hg src c h hs hz⟩
+
+/-- **The parser produces well-formed pipelines** — partial: F6b, F26, F40 and F34 (`hc`: two calls
+with the same id; `accepted_pipeline_duplicate_call_ids`). -/
+theorem parse_produces_wf_pipeline_partial (g : List UInt8 → List UInt8) (hg : GOK g) (src : List UInt8)
+    (p : Pipeline) (h : parsePipelineG g src = some p) (hs : pipeStrsValid p = true)
+    (hz : pipeNoNegZero p = true) (hd : pipeModsDistinct p = true) (hc : pipeCallsDistinct p = true) :
+    wfPipeline p = true :=
+  parsePipelineG_wf g hg src p h hs hz hd hc
+
+/-- **Formatting preserves every accepted pipeline** — partial (F6b, F26, F40, F34).  For every
+source text of a pipeline declaration the parser accepts, with its calls in ANY order and every
+token in any spelling: the formatter's output is accepted; it denotes the same pipeline up to the
+documented reordering of the calls (`sortBody`: `topoSort` order) and the normal form of each call
+(`normPipeline`); the output is a fixed point of the formatter; and formatting what was re-read is
+accepted again with the same result. -/
+theorem format_preserves_accepted_pipeline_partial (g : List UInt8 → List UInt8) (hg : GOK g)
+    (src : List UInt8) (p : Pipeline) (h : parsePipelineG g src = some p) (hs : pipeStrsValid p = true)
+    (hz : pipeNoNegZero p = true) (hd : pipeModsDistinct p = true) (hc : pipeCallsDistinct p = true) :
+    parsePipelineG g (fmtPipeline p) = some (normPipeline p) ∧
+      fmtPipeline (normPipeline p) = fmtPipeline p ∧
+      parsePipelineG g (fmtPipeline (normPipeline p)) = some (normPipeline p) :=
+  format_accepted_pipeline g hg src p h hs hz hd hc
+
+/-- a call statement in non-canonical spelling: double spaces, a comment, keyword modifiers `local`
+and `volatile`, `as`, a split binding of an array with `1e3` (Go holds 1000) and `007`, a map with
+unsorted and duplicate keys (`"k"` twice: the later wins), a wildcard binding, an unsorted `using`
+block without the closing newline -/
+def sampleCallText : List UInt8 :=
+  ascii "map  call local volatile X as Y (  # c\n  b = split [1e3, 007 ,],  a={ \"k\":2.5, \"a\":[], \"k\": 1 },\n  * = self ,\n) using ( preflight = false , disabled = D.x, )"
+
+/-- a modifier-less call: struct literal with unsorted and duplicate fields, an escape, a comment -/
+def samplePlainCallText : List UInt8 :=
+  ascii "call X(y = {b: 1e3, a: [ ], b: 2,}, # c\n x=\"\\x41\",)"
+
+/-- a pipeline whose three calls are all out of dependency order (`C` needs `B` and `A`, `B` needs
+`A`), on few lines, with a comment, a keyword-modified call, `1e3`, `007`, duplicate map keys, an
+unnamed output and a typed-map parameter -/
+def samplePipelineText : List UInt8 :=
+  ascii "pipeline P(in int a \"h\", out map<int[]>[] r,out bam,){ # c\n  map call C(x = split B.o, * = self,) using (disabled = A.d,)\n call local volatile B(y = [A.o, 1e3],) call A(z = {\"b\":self.a, \"a\":007, \"b\":null},)\n return (r = C.o,) retain (C.o,) }"
+
+/-- non-vacuity: the sample texts are accepted, satisfy every hypothesis (and are free of the
+modifier conflict F41), and the formatted text differs from the source: for the call the `using`
+block of the normal form is `disabled, local, preflight, volatile` (keywords converted, sorted),
+for the modifier-less call the whole canonical text is shown.  (The canonical texts of
+`sampleCallText` and `samplePipelineText` are compared with the real formatter's output on every
+run: harness/c09calltext.go; evaluating the printers on them in the kernel takes half a minute.) -/
+example :
+    (parseCall2G gSample sampleCallText).map
+        (fun c => call2StrsValid c && call2NoNegZero c && modsDistinct c && !modsConflict c.mods &&
+          (normCall2 c).mods.binds.map (·.1) == [sDisabled, sLocal, sPreflight, sVolatile] &&
+          !(fmtCall2 [] c == sampleCallText)) = some true ∧
+    (parseCallG gSample samplePlainCallText).map (fun c => callStrsValid c && callNoNegZero c &&
+        fmtCall c == ascii "call X(\n    y = {\n        a: [],\n        b: 2,\n    },\n    x = \"A\",\n)\n") =
+      some true := by
+  set_option maxRecDepth 1000000 in decide +kernel
+
+/-- non-vacuity, pipeline: accepted, every hypothesis holds, the calls are read in source order
+`C, B, A` and come out in dependency order `A, B, C`; the formatted text differs from the source -/
+example :
+    (parsePipelineG gSample samplePipelineText).map
+        (fun p => pipeStrsValid p && pipeNoNegZero p && pipeModsDistinct p && pipeCallsDistinct p &&
+          p.body.calls.map (·.id) == [[0x43], [0x42], [0x41]] &&
+          (normPipeline p).body.calls.map (·.id) == [[0x41], [0x42], [0x43]] &&
+          !(fmtPipeline p == samplePipelineText)) = some true := by
+  set_option maxRecDepth 1000000 in decide +kernel
+
+/-- Negative witness F40 on an ACCEPTED TEXT: `call X() using (local = true, local = false,)` is
+accepted; the `using` block holds the id `local` twice (`modsDistinct` fails), which is outside
+`wfCall2`.  (The MODEL still prints both entries in source order — a stable sort; the real
+`sort.Slice` is not stable from 13 entries on, so the model does not speak for the real printer
+here: harness histogram `accepted-call2 dup-mods`.) -/
+theorem accepted_call_duplicate_modifier :
+    (parseCall2G gSample (ascii "call X() using (local = true, local = false,)")).map
+      (fun c => (call2StrsValid c, call2NoNegZero c, modsDistinct c, wfCall2 c, wfCall2Raw c)) =
+      some (true, true, false, false, true) := by
+  set_option maxRecDepth 100000 in decide +kernel
+
+/-- Negative witness F34 on an ACCEPTED TEXT: two calls with the id `X` (`call X`, `call Y as X`).
+The text is accepted, every other hypothesis holds; the formatter moves `X` behind `C` (the LAST
+call with id `X` wins in `callMap`), and formatting the output moves `C` again (the calls of
+`normPipeline (normPipeline p)`, which `fmtPipeline` prints in that order, are not those of
+`normPipeline p`): the output is not a fixed point. -/
+theorem accepted_pipeline_duplicate_call_ids :
+    (parsePipelineG gSample (ascii
+      "pipeline P(in int a, out int r,) { call X(a = B.o,) call Y as X() call C(c = X.o,) call B() return (r = C.o,) }")).map
+      (fun p => pipeStrsValid p && pipeNoNegZero p && pipeModsDistinct p && !pipeCallsDistinct p &&
+        p.body.calls.map (·.decId) == [[0x58], [0x59], [0x43], [0x42]] &&
+        (normPipeline p).body.calls.map (·.decId) == [[0x59], [0x43], [0x42], [0x58]] &&
+        (normPipeline (normPipeline p)).body.calls.map (·.decId) == [[0x59], [0x42], [0x58], [0x43]]) =
+      some true := by
+  set_option maxRecDepth 1000000 in decide +kernel
+
+/-- Witness F41 on an ACCEPTED TEXT, inside the theorem (no hypothesis excludes it):
+`call local X() using (local = false,)` — a keyword modifier together with a binding of the same
+id, which `Modifiers.compile` rejects (`ConflictingModifiers`).  The formatter prints the binding
+alone: `call X() using (local = false,)`, free of the conflict: formatting turns a source the
+compiler rejects into one it accepts (the value the compiler would have used, the binding's, is
+kept).  Two `using` blocks: the PARSER keeps the last one, so `disabled = A.x` never reaches the
+formatter. -/
+theorem accepted_call_conflicting_modifiers :
+    (parseCall2G gSample (ascii "call local X() using (local = false,)")).map
+      (fun c => (modsConflict c.mods, modsConflict (normCall2 c).mods, modsDistinct c, wfCall2 c, fmtCall2 [] c)) =
+      some (true, false, true, true, ascii "call X() using (\n    local = false,\n)\n") ∧
+    (parseCall2G gSample (ascii "call X() using (disabled = A.x,) using (volatile = true,)")).map
+      (fun c => fmtCall2 [] c) = some (ascii "call X() using (\n    volatile = true,\n)\n") := by
+  set_option maxRecDepth 100000 in decide +kernel
+
+/-- the formatter never produces a modifier conflict: the normal form has no keyword modifiers -/
+theorem normCall2_no_conflict (c : Call2) : modsConflict (normCall2 c).mods = false := rfl
+
+/-- **The normal form keeps the compiled modifiers.**  What `Modifiers.compile` computes from the
+modifiers of a call — the flags `Local`, `Preflight`, `Volatile` (`modFlags`: the value of the
+binding when the `using` block binds the id, else the keyword) and the `disabled` binding
+(`modDisabled`) — is the same for the call read back from the formatted text as for the source's,
+for every `using` block with distinct ids (conflict F41 included: there the binding's value wins
+in both). -/
+theorem normCall2_keeps_modifiers (c : Call2) (hd : modsDistinct c = true) :
+    modFlags (normCall2 c).mods = modFlags c.mods ∧ modDisabled (normCall2 c).mods = modDisabled c.mods :=
+  normMods_keeps c.mods hd
+
+/-- non-vacuity: `sampleCallText` (`local`, `volatile` as keywords, `preflight = false` and
+`disabled = D.x` bound) and the conflict text (`local` keyword, `local = false` bound) -/
+example :
+    (parseCall2G gSample sampleCallText).map
+      (fun c => (modsDistinct c, modFlags c.mods, modFlags (normCall2 c).mods, (modDisabled c.mods).isSome,
+        (modDisabled (normCall2 c).mods).isSome)) =
+      some (true, (true, false, true), (true, false, true), true, true) ∧
+    (parseCall2G gSample (ascii "call local X() using (local = false,)")).map
+      (fun c => (modsDistinct c, modFlags c.mods, modFlags (normCall2 c).mods)) =
+      some (true, (false, false, false), (false, false, false)) := by
+  set_option maxRecDepth 100000 in decide +kernel
+
+/-- Negative witnesses F6b and F26 inside a call statement: `call X(a = "\xff",)` is accepted, the
+string is not valid UTF-8 and is printed as `"\ufffd"`; `call X(a = -0.0,)` is accepted, printed
+`a = -0`, which reads back as the integer 0 and prints `a = 0`: not a fixed point. -/
+theorem accepted_call_invalid_utf8_negative_zero :
+    (parseCall2G gSample (ascii "call X(a = \"\\xff\",)")).map (fun c => (call2StrsValid c, fmtCall2 [] c)) =
+      some (false, ascii "call X(\n    a = \"\\ufffd\",\n)\n") ∧
+    (parseCall2G gSample (ascii "call X(a = -0.0,)")).map
+      (fun c => (call2NoNegZero c, fmtCall2 [] c, (parseCall2G gSample (fmtCall2 [] c)).map (fmtCall2 []))) =
+      some (false, ascii "call X(\n    a = -0,\n)\n", some (ascii "call X(\n    a = 0,\n)\n")) := by
+  set_option maxRecDepth 100000 in decide +kernel
+
+end AcceptedCallTexts
 
 end Props.C09
